@@ -872,6 +872,35 @@ func c02Enumerate(thorough bool, yield func(c *c02Case)) {
 			}
 		}
 	}
+	// space "warmth": access-list warmth of storage slots across reverted frames that share the root's storage context
+	// (DELEGATECALL / CALLCODE) or re-enter the root (CALL again): pre warms slot a, the child touches slot b and ends in
+	// {return, revert, invalid}, post touches slot b again - the EIP-2929 cost of post depends on whether the child's warmth
+	// survived; also with the slot pre-warmed by the transaction's access list (al-target).
+	{
+		touch := func(k uint64) []c02Gadget {
+			return []c02Gadget{{Op: "sload", K: k}, {Op: "sstore", K: k, V: 2}}
+		}
+		ends := []*c02Gadget{nil, gp(c02Gadget{Op: "revert"}), gp(c02Gadget{Op: "invalid"})}
+		for _, kind := range []string{"delegatecall", "callcode", "call"} {
+			for _, pre := range touch(0) {
+				for _, in := range touch(1) {
+					for _, end := range ends {
+						for _, post := range touch(1) {
+							for _, txf := range []c02Tx{c02StdTx, {Type: "al-target", Gas: "1M"}} {
+								child := &c02Frame{G: []c02Gadget{in}}
+								if end != nil {
+									child.G = append(child.G, *end)
+								}
+								pre, post := pre, post
+								root := mkRoot(&pre, c02Gadget{Op: "call", Kind: kind, Tgt: "child", Gas: "all"}, child, &post)
+								yield(&c02Case{Space: "warmth", Flavour: "bech32", Slot0: 1, X: "funded", P: root, Tx: txf})
+							}
+						}
+					}
+				}
+			}
+		}
+	}
 	// a second pre-state and transaction form for the plain depth-2 trees
 	for _, call := range childCalls {
 		for _, ch := range childFrames {
